@@ -756,3 +756,56 @@ pub fn l1_compact_field_alt_forms() {
     core::mem::forget(r);
     core::mem::forget(b);
 }
+
+/// C03: the standard application-exception struct {1: string message, 2: i32 type}, both
+/// directions, against the reference encoder.
+#[cfg(kani)]
+pub fn l1_app_exception<P: Proto, const DIR: u8>() {
+    use pilota::thrift::{ApplicationException, ApplicationExceptionKind};
+    let le = P::WIRE == Wire::BinaryLe;
+    let kind: i32 = kani::any();
+    let m: [u8; 2] = kani::any();
+    kani::assume(m[0] < 0x80 && m[1] < 0x80);
+    let leaked: &'static [u8; 2] = Box::leak(Box::new(m));
+    let s: &'static str = unsafe { core::str::from_utf8_unchecked(&leaked[..]) };
+    let mut e = rt::Out::<32>::new();
+    rt::bin_field(&mut e, rt::bt::BINARY, 1, le);
+    rt::bin_binary(&mut e, &leaked[..], le);
+    rt::bin_field(&mut e, rt::bt::I32, 2, le);
+    rt::bin_i32(&mut e, kind, le);
+    e.put(0);
+    if DIR == 0 {
+        let x = ApplicationException::new(ApplicationExceptionKind::from_i32(kind), FastStr::from_static_str(s));
+        let mut out = BytesMut::with_capacity(32);
+        let n;
+        {
+            let mut tw = BytesMut::with_capacity(32);
+            let mut t = P::writer(&mut tw);
+            n = x.size(&mut t);
+            core::mem::forget(t);
+            core::mem::forget(tw);
+        }
+        {
+            let mut w = P::writer(&mut out);
+            ok(x.encode(&mut w));
+            P::finish(w);
+        }
+        kani::assert(e.eq_bytes(&out[..]), "C03: application exception is written as struct {1: string message, 2: i32 type}");
+        kani::assert(out.len() == n, "C04: size() of the application exception equals the bytes written");
+        core::mem::forget(x);
+        core::mem::forget(out);
+    } else {
+        let n = e.n;
+        let mut b = static_input(e.b);
+        b.truncate(n);
+        let mut r = P::reader(&mut b);
+        let got: ApplicationException = ok(Message::decode(&mut r));
+        kani::assert(got.kind().as_i32() == kind, "C03: application exception type is read from field 2");
+        kani::assert(got.message().as_bytes() == &leaked[..], "C03: application exception message is read from field 1");
+        kani::assert(P::remaining(&mut r) == 0, "C03: the exception struct is consumed exactly");
+        core::mem::forget(got);
+        core::mem::forget(r);
+        core::mem::forget(b);
+    }
+    kani::cover!(true, "reached end");
+}
